@@ -187,9 +187,9 @@ type session struct {
 	socket                         socket.Socket
 	closeNotifyCh                  chan struct{} // closeNotifyCh is the channel returned by CloseNotify.
 	writeLock                      sync.Mutex
-	graceCtxWaitGroup              sync.WaitGroup
+	graceCtxWaitGroup              graceGroup
 	graceCtxMutex                  sync.Mutex
-	graceCallCmdWaitGroup          sync.WaitGroup
+	graceCallCmdWaitGroup          graceGroup
 	sessionAge                     time.Duration
 	contextAge                     time.Duration
 	sessionAgeLock                 sync.RWMutex
